@@ -17,6 +17,21 @@ AST based.  Of the three convenience constructors `MolGrid.from_preset`, `from_s
   so that `Props/C07` can pin them (`decide`): the hand model of `Model/MolGrid.lean` was written
   against exactly these call sites.
 
+* round 2: `MolGrid.__init__`, `MolGrid.get_atomic_grid`, `MolGrid.__getitem__` are translated
+  *statement by statement* (class `Body` below) into `do` blocks in `Py := Except PyErr` over the
+  hand-written list primitives of `Model/MolGrid.lean` (`npZeros`, `npSum`, `pySetItem`,
+  `pySetSlice`, `pyForEnum`, `pyGet`, `pySlice`, `mulBroadcast`, `mkLocalGrid`):
+  `Gen.MolGrid.init_loop`, `init`, `getAtomicGrid`, `getItem`.  Vocabulary: `self._x = np.zeros(shape
+  [, dtype=int])`, `self._x = a if flag else None`, `n = np.sum([g.size for g in gs])`,
+  `for i, g in enumerate(gs)` whose body consists of `self._x[i] = e`, `self._x[i] += e`,
+  `a, b = e1, e2`, `self._x[a:b] = e`; the `callable(...)` / `isinstance(..., np.ndarray)` / `else:
+  raise` dispatch with `if <comparison>: raise` guards; `super().__init__(self.points, a * b)`;
+  in the two accessors `if <comparison>: raise X`, `if self._atgrids is [not] None: ... return`,
+  `name = expr`, `return self._atgrids[index]`, `return LocalGrid(p, w, c)`; expressions: names,
+  `self.attr`, `g.attr`, `x[i]`, `x[a:b]`, `len(x)`, `+` on integers, one comparison.  The
+  properties `Grid.points` / `Grid.weights` are checked (in basegrid.py) to be `return self._points`
+  / `return self._weights`.
+
 Anything else raises `Untranslatable` (treated by the check like a proof obligation that no
 longer holds).
 """
@@ -278,6 +293,588 @@ def _one_method(tree, fname, lean_prefix):
     return out
 
 
+# ==========================================================================================
+# round 2: statement-by-statement translation of __init__, get_atomic_grid, __getitem__
+# ==========================================================================================
+LEAN_KEYWORDS = {
+    "end", "from", "at", "in", "do", "then", "else", "if", "fun", "let", "have", "show", "with", "match", "open",
+    "section", "namespace", "where", "instance", "structure", "def", "theorem", "import", "prefix", "local", "private",
+    "protected", "mutual", "by", "calc", "deriving", "class", "universe", "variable", "example", "axiom", "abbrev",
+    "inductive", "Type", "Prop", "Sort", "for", "unless", "return", "try", "catch", "finally", "mut", "nomatch", "nofun",
+    "using", "export", "extends", "noncomputable", "partial", "unsafe", "opaque", "macro", "syntax", "notation", "infix",
+    "infixl", "infixr", "postfix", "elab", "omit", "include", "public", "meta", "module", "this", "self_", "suffices",
+    "obtain", "true", "false", "some", "none", "pure", "throw", "bind",
+}
+
+# element kind of each array kind
+ELEM = {"listP": "point", "listK": "scalar", "listNat": "nat", "atgrids": "atgrid"}
+LEAN_TYPE = {"listP": "List P", "listK": "List K", "listNat": "List Nat"}
+ATGRID_ATTR = {"center": "point", "size": "nat", "points": "listP", "weights": "listK"}
+CMP = {ast.Lt: "<", ast.LtE: "≤", ast.Gt: ">", ast.GtE: "≥", ast.Eq: "=", ast.NotEq: "≠"}
+EXC = {"ValueError": "valueError", "TypeError": "typeError", "IndexError": "indexError", "KeyError": "keyError"}
+# attribute of a constructed MolGrid -> field of the Lean structure `MolGrid P K`, kind
+FIELDS = {
+    "_points": ("points", "listP"), "_weights": ("weights", "listK"), "_atweights": ("atweights", "listK"),
+    "_aim_weights": ("aimWeights", "listK"), "_atcoords": ("atcoords", "listP"), "_indices": ("indices", "listNat"),
+    "_atgrids": ("atgrids", "optAtgrids"),
+}
+GRID_PROPERTIES = {"points": "_points", "weights": "_weights"}  # checked against basegrid.py
+
+
+def _lname(n):
+    if not (n.isascii() and n.isidentifier()):
+        raise Untranslatable(f"identifier {n!r}")
+    return n + "_" if n in LEAN_KEYWORDS else n
+
+
+def _comment(node):
+    txt = ast.unparse(node).splitlines()[0]
+    if not txt.isascii():
+        raise Untranslatable(f"non-ASCII source text: {txt[:60]!r}")
+    return "-- " + txt[:150]
+
+
+def _check_grid_properties():
+    """`self.points` / `self.weights` are read as `self._points` / `self._weights`: check the properties of Grid."""
+    tree = ast.parse((SRC / "basegrid.py").read_text())
+    grid = [c for c in tree.body if isinstance(c, ast.ClassDef) and c.name == "Grid"]
+    if len(grid) != 1:
+        raise Untranslatable("class Grid not found in basegrid.py")
+    seen = {}
+    for f in grid[0].body:
+        if isinstance(f, ast.FunctionDef) and f.name in GRID_PROPERTIES and any(
+                isinstance(d, ast.Name) and d.id == "property" for d in f.decorator_list):
+            seen[f.name] = [ast.unparse(x) for x in _strip_doc(f.body)]
+    for name, attr in GRID_PROPERTIES.items():
+        if seen.get(name) != [f"return self.{attr}"]:
+            raise Untranslatable(f"Grid.{name} is not `return self.{attr}`: {seen.get(name)}")
+    # a subclass override in MolGrid would change the meaning as well
+    mtree = ast.parse((SRC / "molgrid.py").read_text())
+    for c in mtree.body:
+        if isinstance(c, ast.ClassDef) and c.name == "MolGrid":
+            if [ast.unparse(b) for b in c.bases] != ["Grid"]:
+                raise Untranslatable(f"MolGrid bases: {[ast.unparse(b) for b in c.bases]}")
+            for f in c.body:
+                if isinstance(f, ast.FunctionDef) and f.name in ("points", "weights", "size", "__getattr__", "__getattribute__", "__setattr__"):
+                    raise Untranslatable(f"MolGrid overrides {f.name}")
+
+
+class Body:
+    """Translation of one method body.  `vars`: python name -> (lean term, kind);  `selfmap`: `self.<attr>` -> (lean, kind)."""
+
+    def __init__(self, fname, constructed):
+        self.fname = fname
+        self.constructed = constructed  # True: `self` is a finished MolGrid (accessors); False: __init__
+        self.vars = {}
+        self.selfvars = {}  # __init__ only: attribute -> (lean, kind)
+        self.stored = None  # accessors: lean name bound to the stored list inside `is not None` branch, or "NONE"
+
+    # -- expressions -----------------------------------------------------------------------
+    def selfattr(self, node, attr):
+        attr = GRID_PROPERTIES.get(attr, attr)
+        if self.constructed:
+            if attr == "_atgrids":
+                if self.stored is None:
+                    _fail(node, "self._atgrids used outside an `is None` / `is not None` branch")
+                if self.stored == "NONE":
+                    _fail(node, "self._atgrids used where it is None")
+                return self.stored, "atgrids"
+            if attr not in FIELDS:
+                _fail(node, "unknown attribute of MolGrid")
+            fld, kind = FIELDS[attr]
+            return f"self.{fld}", kind
+        if attr not in self.selfvars:
+            _fail(node, "attribute read before it is assigned in __init__")
+        return self.selfvars[attr]
+
+    def index(self, e):
+        """Lean term of type Int for an index expression."""
+        if isinstance(e, ast.Name) and e.id in self.vars:
+            t, k = self.vars[e.id]
+            if k == "nat":
+                return f"({t} : Int)"
+            if k == "int":
+                return t
+        if isinstance(e, ast.Constant) and type(e.value) is int and e.value >= 0:
+            return str(e.value)
+        if isinstance(e, ast.BinOp) and isinstance(e.op, ast.Add) and isinstance(e.right, ast.Constant) \
+                and type(e.right.value) is int and e.right.value >= 0:
+            return f"({self.index(e.left)} + {e.right.value})"
+        _fail(e, "unsupported index expression")
+
+    def expr(self, e):
+        """-> (lean term, kind)"""
+        if isinstance(e, ast.Name):
+            if e.id in self.vars:
+                return self.vars[e.id]
+            _fail(e, "unknown name")
+        if isinstance(e, ast.Attribute) and isinstance(e.value, ast.Name):
+            if e.value.id == "self":
+                return self.selfattr(e, e.attr)
+            if e.value.id in self.vars:
+                t, k = self.vars[e.value.id]
+                if k == "atgrid" and e.attr in ATGRID_ATTR:
+                    return f"{t}.{e.attr}", ATGRID_ATTR[e.attr]
+                if k == "aimArray" and e.attr == "size":
+                    return f"{t}.length", "nat"
+            _fail(e, "unsupported attribute")
+        if isinstance(e, ast.Subscript):
+            c, k = self.expr(e.value)
+            if k not in ELEM:
+                _fail(e, f"subscript of a value of kind {k}")
+            if isinstance(e.slice, ast.Slice):
+                sl = e.slice
+                if sl.step is not None or sl.lower is None or sl.upper is None or k == "atgrids":
+                    _fail(e, "only x[a:b] with both bounds on arrays")
+                a, ka = self.expr(sl.lower)
+                b, kb = self.expr(sl.upper)
+                if (ka, kb) != ("nat", "nat"):
+                    _fail(e, "slice bounds must be non-negative integers (entries of the index table)")
+                return f"(pySlice {c} {a} {b})", k
+            return f"(← pyGet {c} {self.index(e.slice)})", ELEM[k]
+        if isinstance(e, ast.BinOp) and isinstance(e.op, ast.Add):
+            def operand(x):
+                if isinstance(x, ast.Constant) and type(x.value) is int and x.value >= 0:
+                    return str(x.value), "nat"
+                return self.expr(x)
+            a, ka = operand(e.left)
+            b, kb = operand(e.right)
+            if (ka, kb) == ("nat", "nat"):
+                return f"({a} + {b})", "nat"
+            _fail(e, f"`+` on kinds {ka}, {kb}")
+        if isinstance(e, ast.Call) and isinstance(e.func, ast.Name) and e.func.id == "len" and len(e.args) == 1 and not e.keywords:
+            a, k = self.expr(e.args[0])
+            if k in ELEM:
+                return f"{a}.length", "nat"
+            _fail(e, f"len of kind {k}")
+        if isinstance(e, ast.IfExp) and isinstance(e.orelse, ast.Constant) and e.orelse.value is None:
+            t, kt = self.expr(e.test)
+            v, kv = self.expr(e.body)
+            if kt == "bool" and kv == "atgrids":
+                return f"(if {t} then some {v} else none)", "optAtgrids"
+            _fail(e, f"`x if flag else None` on kinds {kv}, {kt}")
+        _fail(e, "unsupported expression")
+
+    def compare(self, t):
+        """-> Lean proposition (decidable)"""
+        if not (isinstance(t, ast.Compare) and len(t.ops) == 1 and type(t.ops[0]) in CMP):
+            _fail(t, "unsupported test")
+        op = CMP[type(t.ops[0])]
+        l, r = t.left, t.comparators[0]
+
+        def side(x):
+            if isinstance(x, ast.Constant) and type(x.value) is int and x.value >= 0:
+                return str(x.value), "const"
+            return self.expr(x)
+        (a, ka), (b, kb) = side(l), side(r)
+        kinds = {ka, kb}
+        if kinds <= {"int", "const"} and "int" in kinds:
+            return f"{a} {op} {b}"
+        conv = {"nat": lambda x: x, "npnum": lambda x: f"{x}.toNat", "const": lambda x: x}
+        if kinds <= set(conv) and kinds != {"const"}:
+            return f"{conv[ka](a)} {op} {conv[kb](b)}"
+        _fail(t, f"comparison of kinds {ka}, {kb}")
+
+    def raises(self, s):
+        if (isinstance(s, ast.Raise) and s.cause is None and isinstance(s.exc, ast.Call)
+                and isinstance(s.exc.func, ast.Name) and s.exc.func.id in EXC):
+            return f"throw PyErr.{EXC[s.exc.func.id]}"
+        _fail(s, "unsupported raise")
+
+    def guard(self, s):
+        """`if <comparison>: raise X` -> lines"""
+        if not (isinstance(s, ast.If) and not s.orelse and len(s.body) == 1 and isinstance(s.body[0], ast.Raise)):
+            _fail(s, "expected `if <comparison>: raise X`")
+        return [f"-- if {ast.unparse(s.test)}: raise {s.body[0].exc.func.id if isinstance(s.body[0].exc, ast.Call) and isinstance(s.body[0].exc.func, ast.Name) else '?'}",
+                f"if {self.compare(s.test)} then {self.raises(s.body[0])}"]
+
+
+def _method(tree, name):
+    return _classmethod(tree, name)
+
+
+# ------------------------------------------------------------------------------------------
+def _translate_init(tree):
+    f = _method(tree, "__init__")
+    params = [a.arg for a in f.args.args]
+    if params != ["self", "atnums", "atgrids", "aim_weights", "store"] or f.args.kwonlyargs or f.args.vararg or f.args.kwarg:
+        _fail(f, "unexpected signature of MolGrid.__init__")
+    if [ast.unparse(d) for d in f.args.defaults] != ["False"]:
+        _fail(f, "unexpected defaults of MolGrid.__init__")
+    B = Body("__init__", constructed=False)
+    B.vars = {"atnums": ("atnums", "listNat"), "atgrids": ("atgrids", "atgrids"),
+              "aim_weights": ("aim_weights", "aim"), "store": ("store", "bool")}
+    body = _strip_doc(f.body)
+    out = []        # lines of `init`
+    loop_def = None
+    seen_loop = seen_aim = seen_super = False
+    final = {}
+
+    def zeros(call):
+        """np.zeros(shape[, dtype=int]) -> (lean, kind)"""
+        if not (isinstance(call, ast.Call) and ast.unparse(call.func) == "np.zeros" and len(call.args) == 1):
+            return None
+        kw = {k.arg: ast.unparse(k.value) for k in call.keywords}
+        shape = call.args[0]
+        if isinstance(shape, ast.Tuple):
+            if not (len(shape.elts) == 2 and isinstance(shape.elts[1], ast.Constant) and shape.elts[1].value == 3 and not kw):
+                _fail(call, "only np.zeros((n, 3))")
+            n, kind, zero = shape.elts[0], "listP", "zeroRow"
+        elif kw == {"dtype": "int"}:
+            n, kind, zero = shape, "listNat", "(0 : Nat)"
+        elif not kw:
+            n, kind, zero = shape, "listK", "((0 : Nat) : K)"
+        else:
+            _fail(call, "unsupported np.zeros keywords")
+        t, k = B.expr(n)
+        if k == "nat":
+            t = f"(NpNum.int {t})"
+        elif k != "npnum":
+            _fail(call, f"shape of kind {k}")
+        return f"npZeros {t} {zero}", kind
+
+    for s in body:
+        if seen_super:
+            _fail(s, "statement after super().__init__(...)")
+        # ---- self._x = ...
+        if (isinstance(s, ast.Assign) and len(s.targets) == 1 and isinstance(s.targets[0], ast.Attribute)
+                and isinstance(s.targets[0].value, ast.Name) and s.targets[0].value.id == "self"):
+            attr = s.targets[0].attr
+            if seen_loop or attr not in FIELDS or attr == "_weights" or attr in B.selfvars:
+                _fail(s, "unsupported attribute assignment")
+            z = zeros(s.value)
+            out.append(_comment(s))
+            if z is not None:
+                if FIELDS[attr][1] != z[1]:
+                    _fail(s, f"{attr} initialised as {z[1]}")
+                out.append(f"let {attr} ← {z[0]}")
+                B.selfvars[attr] = (attr, z[1])
+            else:
+                t, k = B.expr(s.value)
+                if k != FIELDS[attr][1]:
+                    _fail(s, f"{attr} assigned a value of kind {k}")
+                out.append(f"let {attr} := {t}")
+                B.selfvars[attr] = (attr, k)
+            continue
+        # ---- n = np.sum([g.size for g in gs])
+        if (isinstance(s, ast.Assign) and len(s.targets) == 1 and isinstance(s.targets[0], ast.Name)):
+            name, v = s.targets[0].id, s.value
+            if (seen_loop or name in B.vars or not (isinstance(v, ast.Call) and ast.unparse(v.func) == "np.sum" and len(v.args) == 1 and not v.keywords
+                    and isinstance(v.args[0], ast.ListComp) and len(v.args[0].generators) == 1)):
+                _fail(s, "unsupported assignment")
+            g = v.args[0].generators[0]
+            if g.ifs or g.is_async or not isinstance(g.target, ast.Name):
+                _fail(s, "unsupported comprehension")
+            it, kit = B.expr(g.iter)
+            if kit != "atgrids":
+                _fail(s, "comprehension over something else than the atomic grids")
+            gv = _lname(g.target.id)
+            saved = dict(B.vars)
+            B.vars[g.target.id] = (gv, "atgrid")
+            elt, ke = B.expr(v.args[0].elt)
+            B.vars = saved
+            if ke != "nat":
+                _fail(s, "np.sum of non-integers")
+            out.append(_comment(s))
+            out.append(f"let {_lname(name)} := npSum ({it}.map fun {gv} => {elt})")
+            B.vars[name] = (_lname(name), "npnum")
+            continue
+        # ---- the loop
+        if isinstance(s, ast.For):
+            if seen_loop or s.orelse or not (isinstance(s.target, ast.Tuple) and len(s.target.elts) == 2
+                    and all(isinstance(x, ast.Name) for x in s.target.elts)
+                    and isinstance(s.iter, ast.Call) and isinstance(s.iter.func, ast.Name) and s.iter.func.id == "enumerate"
+                    and len(s.iter.args) == 1 and not s.iter.keywords):
+                _fail(s, "unsupported loop")
+            it, kit = B.expr(s.iter.args[0])
+            if kit != "atgrids":
+                _fail(s, "loop over something else than the atomic grids")
+            iv, gv = (_lname(x.id) for x in s.target.elts)
+            L = Body("__init__/loop", constructed=False)
+            L.vars = dict(B.vars)
+            L.vars[s.target.elts[0].id] = (iv, "nat")
+            L.vars[s.target.elts[1].id] = (gv, "atgrid")
+            L.selfvars = dict(B.selfvars)
+            mutated, lines = [], []
+
+            def target_attr(t):
+                if (isinstance(t, ast.Subscript) and isinstance(t.value, ast.Attribute) and isinstance(t.value.value, ast.Name)
+                        and t.value.value.id == "self" and t.value.attr in L.selfvars and L.selfvars[t.value.attr][1] in LEAN_TYPE):
+                    a = t.value.attr
+                    if a not in mutated:
+                        mutated.append(a)
+                    return a
+                _fail(t, "unsupported assignment target in the loop")
+
+            for b in s.body:
+                lines.append(_comment(b))
+                if isinstance(b, ast.Assign) and len(b.targets) == 1 and isinstance(b.targets[0], ast.Subscript):
+                    t = b.targets[0]
+                    a = target_attr(t)
+                    kind = L.selfvars[a][1]
+                    v, kv = L.expr(b.value)
+                    if isinstance(t.slice, ast.Slice):
+                        if t.slice.step is not None or t.slice.lower is None or t.slice.upper is None:
+                            _fail(b, "only x[a:b] = v")
+                        lo, klo = L.expr(t.slice.lower)
+                        hi, khi = L.expr(t.slice.upper)
+                        if (klo, khi) != ("nat", "nat") or kv != kind:
+                            _fail(b, f"slice assignment of kind {kv} into {kind} with bounds {klo}, {khi}")
+                        lines.append(f"let {a} ← pySetSlice {a} {lo} {hi} {v}")
+                    else:
+                        if kv != ELEM[kind]:
+                            _fail(b, f"item assignment of kind {kv} into {kind}")
+                        lines.append(f"let {a} ← pySetItem {a} {L.index(t.slice)} {v}")
+                    continue
+                if isinstance(b, ast.AugAssign) and isinstance(b.op, ast.Add) and isinstance(b.target, ast.Subscript) \
+                        and not isinstance(b.target.slice, ast.Slice):
+                    a = target_attr(b.target)
+                    if L.selfvars[a][1] != "listNat":
+                        _fail(b, "`+=` on a non-integer array")
+                    ix = L.index(b.target.slice)
+                    v, kv = L.expr(b.value)
+                    if kv != "nat":
+                        _fail(b, f"`+=` of kind {kv}")
+                    # Python: load the item, evaluate the right-hand side, add, store
+                    lines.append(f"let {a} ← pySetItem {a} {ix} ((← pyGet {a} {ix}) + {v})")
+                    continue
+                if (isinstance(b, ast.Assign) and len(b.targets) == 1 and isinstance(b.targets[0], ast.Tuple)
+                        and isinstance(b.value, ast.Tuple) and len(b.value.elts) == len(b.targets[0].elts)
+                        and all(isinstance(x, ast.Name) for x in b.targets[0].elts)):
+                    names = [x.id for x in b.targets[0].elts]
+                    used = {n.id for v in b.value.elts for n in ast.walk(v) if isinstance(n, ast.Name)}
+                    if set(names) & used or len(set(names)) != len(names) or set(names) & set(L.vars):
+                        _fail(b, "tuple assignment reusing names")
+                    vals = [L.expr(v) for v in b.value.elts]
+                    for n, (v, kv) in zip(names, vals):
+                        if kv != "nat":
+                            _fail(b, f"local of kind {kv}")
+                        lines.append(f"let {_lname(n)} := {v}")
+                    for n in names:
+                        L.vars[n] = (_lname(n), "nat")
+                    continue
+                _fail(b, "unsupported statement in the loop of __init__")
+            if not mutated:
+                _fail(s, "loop without effect")
+            sig = " ".join(f"({a} : {LEAN_TYPE[B.selfvars[a][1]]})" for a in mutated)
+            ret = " × ".join(LEAN_TYPE[B.selfvars[a][1]] for a in mutated)
+            loop_def = [f"/-- `MolGrid.__init__`, line {s.lineno}: the body of `for {ast.unparse(s.target)} in {ast.unparse(s.iter)}`; the arrays it",
+                        "updates are passed in and handed back. -/",
+                        f"def init_loop {{P K : Type}} ({iv} : Nat) ({gv} : AtGrid P K) {sig} :",
+                        f"    Py ({ret}) := do"]
+            loop_def += ["  " + ln for ln in lines]
+            loop_def += ["  pure (" + ", ".join(mutated) + ")", ""]
+            proj = ["st" + ".2" * k + (".1" if k < len(mutated) - 1 else "") for k in range(len(mutated))]
+            if len(mutated) == 1:
+                proj = ["st"]
+            out.append(f"-- for {ast.unparse(s.target)} in {ast.unparse(s.iter)}: ...")
+            out.append(f"let st ← pyForEnum (fun st {iv} {gv} => init_loop {iv} {gv} " + " ".join(proj) + f") 0 {it} (" + ", ".join(mutated) + ")")
+            for a, pr in zip(mutated, proj):
+                out.append(f"let {a} := {pr}")
+            seen_loop = True
+            continue
+        # ---- aim-weights dispatch
+        if isinstance(s, ast.If):
+            if not seen_loop or seen_aim:
+                _fail(s, "unexpected if statement")
+            arms, node, target = [], s, None
+            while True:
+                t = node.test
+                if (isinstance(t, ast.Call) and isinstance(t.func, ast.Name) and t.func.id == "callable" and len(t.args) == 1
+                        and isinstance(t.args[0], ast.Name) and B.vars.get(t.args[0].id, (0, 0))[1] == "aim"):
+                    ctor, kind = "callable", "aimCallable"
+                elif (isinstance(t, ast.Call) and isinstance(t.func, ast.Name) and t.func.id == "isinstance" and len(t.args) == 2
+                        and isinstance(t.args[0], ast.Name) and B.vars.get(t.args[0].id, (0, 0))[1] == "aim"
+                        and ast.unparse(t.args[1]) == "np.ndarray"):
+                    ctor, kind = "array", "aimArray"
+                else:
+                    _fail(t, "unsupported test in the aim-weights dispatch")
+                if ctor in [a[0] for a in arms]:
+                    _fail(t, "second branch for the same kind of aim weights")
+                if ctor == "array" and "callable" not in [a[0] for a in arms]:
+                    # a callable ndarray subclass does not exist here, but the order of the tests is semantics: keep it fixed
+                    _fail(t, "isinstance test before the callable test")
+                argname = t.args[0].id
+                A = Body("__init__/aim", constructed=False)
+                A.vars = dict(B.vars)
+                A.vars[argname] = (_lname(argname), kind)
+                A.selfvars = dict(B.selfvars)
+                lines = [f"-- {'if' if not arms else 'elif'} {ast.unparse(t)}:"]
+                stmts = list(node.body)
+                for g in stmts[:-1]:
+                    lines += A.guard(g)
+                last = stmts[-1]
+                if not (isinstance(last, ast.Assign) and len(last.targets) == 1 and isinstance(last.targets[0], ast.Attribute)
+                        and isinstance(last.targets[0].value, ast.Name) and last.targets[0].value.id == "self"):
+                    _fail(last, "branch must end in `self._aim_weights = ...`")
+                tgt = last.targets[0].attr
+                if target not in (None, tgt) or tgt != "_aim_weights" or tgt in B.selfvars:
+                    _fail(last, "branches assign different attributes")
+                target = tgt
+                lines.append(_comment(last))
+                v = last.value
+                if kind == "aimCallable":
+                    if not (isinstance(v, ast.Call) and isinstance(v.func, ast.Name) and v.func.id == argname and not v.keywords
+                            and not any(isinstance(a, ast.Starred) for a in v.args)):
+                        _fail(last, "expected a call of the callable")
+                    args = [A.expr(a) for a in v.args]
+                    lines.append(f"pure ({_lname(argname)} " + " ".join(a for a, _ in args) + ")")
+                else:
+                    if not (isinstance(v, ast.Name) and v.id == argname):
+                        _fail(last, "expected the array itself")
+                    lines.append(f"pure {_lname(argname)}")
+                arms.append((ctor, _lname(argname), lines))
+                oe = node.orelse
+                if len(oe) == 1 and isinstance(oe[0], ast.If):
+                    node = oe[0]
+                    continue
+                if len(oe) == 1 and isinstance(oe[0], ast.Raise):
+                    default = B.raises(oe[0])
+                    break
+                _fail(node, "dispatch must end in `else: raise ...`")
+            if [a[0] for a in arms] != ["callable", "array"]:
+                _fail(s, "dispatch must test callable(...), then isinstance(..., np.ndarray)")
+            out.append(f"let {target} ← (match aim_weights with")
+            for ctor, nm, lines in arms:
+                out.append(f"  | AimArg.{ctor} {nm} => do")
+                out += ["    " + ln for ln in lines]
+            out.append(f"  | AimArg.other => {default}  -- else: raise)")
+            out[-1] = out[-1].replace("  -- else: raise)", ")  -- else: raise")
+            B.selfvars[target] = (target, "listK")
+            seen_aim = True
+            continue
+        # ---- super().__init__(self.points, a * b)
+        if (isinstance(s, ast.Expr) and isinstance(s.value, ast.Call) and ast.unparse(s.value.func) == "super().__init__"
+                and len(s.value.args) == 2 and not s.value.keywords):
+            if not seen_aim:
+                _fail(s, "super().__init__ before the aim weights are set")
+            p, kp = B.expr(s.value.args[0])
+            w = s.value.args[1]
+            if kp != "listP" or not (isinstance(w, ast.BinOp) and isinstance(w.op, ast.Mult)):
+                _fail(s, "expected super().__init__(<points>, <array> * <array>)")
+            a, ka = B.expr(w.left)
+            b, kb = B.expr(w.right)
+            if (ka, kb) != ("listK", "listK"):
+                _fail(s, f"product of kinds {ka}, {kb}")
+            out.append(_comment(s))
+            out.append(f"let _weights ← mulBroadcast {a} {b}  -- incl. the length check of Grid.__init__")
+            final["points"] = p
+            final["weights"] = "_weights"
+            seen_super = True
+            continue
+        _fail(s, "unsupported statement in MolGrid.__init__")
+    if not (seen_loop and seen_aim and seen_super):
+        raise Untranslatable("MolGrid.__init__: loop / aim-weights dispatch / super().__init__ missing")
+    for attr, (fld, kind) in FIELDS.items():
+        if fld in final:
+            continue
+        if attr not in B.selfvars or B.selfvars[attr][1] != kind:
+            raise Untranslatable(f"MolGrid.__init__ does not assign self.{attr}")
+        final[fld] = B.selfvars[attr][0]
+    order = ["points", "weights", "atweights", "aimWeights", "atcoords", "indices", "atgrids"]
+    res = list(loop_def)
+    res += ["/-- `MolGrid.__init__(self, atnums, atgrids, aim_weights, store)`, statement by statement. `zeroRow` is a row of",
+            "`np.zeros((n, 3))`. -/",
+            "def init {P K : Type} [Add K] [Mul K] [NatCast K] (zeroRow : P) (atnums : List Nat)",
+            "    (atgrids : List (AtGrid P K)) (aim_weights : AimArg P K) (store : Bool) : Py (MolGrid P K) := do"]
+    res += ["  " + ln for ln in out]
+    res.append("  pure { " + ", ".join(f"{k} := {final[k]}" for k in order) + " }")
+    res.append("")
+    return res
+
+
+def _translate_accessor(tree, pyname, leanname):
+    f = _method(tree, pyname)
+    if [a.arg for a in f.args.args] != ["self", "index"] or f.args.kwonlyargs or f.args.vararg or f.args.kwarg or f.args.defaults:
+        _fail(f, f"unexpected signature of MolGrid.{pyname}")
+    if f.decorator_list:
+        _fail(f, "decorated accessor")
+    B = Body(pyname, constructed=True)
+    B.vars = {"index": ("index", "int")}
+
+    def block(stmts, ind):
+        """-> lines; the block must end in a return / raise on every path"""
+        lines = []
+        for k, s in enumerate(stmts):
+            rest = stmts[k + 1:]
+            pad = "  " * ind
+            if isinstance(s, ast.If) and not s.orelse and len(s.body) == 1 and isinstance(s.body[0], ast.Raise) and isinstance(s.test, ast.Compare) \
+                    and not isinstance(s.test.ops[0], (ast.Is, ast.IsNot)):
+                if not rest:
+                    _fail(s, "method may fall off its end")
+                lines += [pad + ln for ln in B.guard(s)]
+                continue
+            if (isinstance(s, ast.If) and not s.orelse and isinstance(s.test, ast.Compare) and len(s.test.ops) == 1
+                    and isinstance(s.test.ops[0], (ast.Is, ast.IsNot)) and ast.unparse(s.test.left) == "self._atgrids"
+                    and isinstance(s.test.comparators[0], ast.Constant) and s.test.comparators[0].value is None):
+                if B.stored is not None:
+                    _fail(s, "nested test of self._atgrids")
+                if not rest:
+                    _fail(s, "method may fall off its end")
+                is_none = isinstance(s.test.ops[0], ast.Is)
+                lines.append(pad + f"-- if {ast.unparse(s.test)}: ... (the statements after it: the other case)")
+                lines.append(pad + "match self.atgrids with")
+                saved_vars = dict(B.vars)
+                B.stored = "NONE" if is_none else "_atgrids"
+                then = block(s.body, ind + 1)
+                B.vars = dict(saved_vars)
+                B.stored = "_atgrids" if is_none else "NONE"
+                other = block(rest, ind + 1)
+                B.stored = None
+                B.vars = saved_vars
+                arm_none = pad + "| none => do"
+                arm_some = pad + "| some _atgrids => do"
+                if is_none:
+                    lines += [arm_none] + then + [arm_some] + other
+                else:
+                    lines += [arm_some] + then + [arm_none] + other
+                return lines
+            if isinstance(s, ast.Assign) and len(s.targets) == 1 and isinstance(s.targets[0], ast.Name):
+                n = s.targets[0].id
+                if n in B.vars or n == "self":
+                    _fail(s, "re-assignment")
+                v, kv = B.expr(s.value)
+                lines.append(pad + _comment(s))
+                lines.append(pad + f"let {_lname(n)} := {v}")
+                B.vars[n] = (_lname(n), kv)
+                continue
+            if isinstance(s, ast.Return) and s.value is not None:
+                if rest:
+                    _fail(rest[0], "statement after return")
+                v = s.value
+                lines.append(pad + _comment(s))
+                if isinstance(v, ast.Call) and isinstance(v.func, ast.Name) and v.func.id == "LocalGrid" and len(v.args) == 3 and not v.keywords:
+                    (p, kp), (w, kw), (c, kc) = (B.expr(a) for a in v.args)
+                    if (kp, kw, kc) != ("listP", "listK", "point"):
+                        _fail(s, f"LocalGrid of kinds {kp}, {kw}, {kc}")
+                    lines.append(pad + f"mkLocalGrid {p} {w} {c}")
+                    return lines
+                t, k = B.expr(v)
+                if k != "atgrid":
+                    _fail(s, f"return of kind {k}")
+                lines.append(pad + f"pure (SubGrid.atom {t})")
+                return lines
+            if isinstance(s, ast.Raise):
+                if rest:
+                    _fail(rest[0], "statement after raise")
+                lines.append(pad + B.raises(s))
+                return lines
+            _fail(s, f"unsupported statement in MolGrid.{pyname}")
+        _fail(f, "method may fall off its end")
+
+    lines = block(_strip_doc(f.body), 1)
+    return [f"/-- `MolGrid.{pyname}(self, index)`, line {f.lineno}, statement by statement. -/",
+            f"def {leanname} {{P K : Type}} (self : MolGrid P K) (index : Int) : Py (SubGrid P K) := do"] + lines + [""]
+
+
+def translate_core(tree):
+    _check_grid_properties()
+    out = _translate_init(tree)
+    out += _translate_accessor(tree, "get_atomic_grid", "getAtomicGrid")
+    out += _translate_accessor(tree, "__getitem__", "getItem")
+    return out
+
+
 def translate():
     tree = ast.parse((SRC / "molgrid.py").read_text())
     parts = []
@@ -312,16 +909,22 @@ def translate():
     lines.append(cur.rstrip().rstrip(",") + "]")
     parts += lines
     parts.append("")
+    parts += translate_core(tree)
     return "\n".join(parts)
 
 
-def generate():
-    text = HEADER.format(name="molgrid", source="src/grid/molgrid.py (MolGrid.from_preset, from_size, from_pruned, _generate_default_rgrid), src/grid/utils.py (_DEFAULT_POWER_RTRANSFORM_PARAMS keys)")
+def render():
+    """The full text of Gen/MolGrid.lean for the current source tree (nothing is written)."""
+    text = HEADER.format(name="molgrid", source="src/grid/molgrid.py (MolGrid.__init__, get_atomic_grid, __getitem__, from_preset, from_size, from_pruned, _generate_default_rgrid), src/grid/utils.py (_DEFAULT_POWER_RTRANSFORM_PARAMS keys)")
     text += ("import GridVerif.Model.MolGrid\n\nset_option linter.unusedVariables false\n\n"
              "namespace GridVerif.Gen.MolGrid\nopen GridVerif.MolGrid\n\n")
     text += translate()
     text += "\nend GridVerif.Gen.MolGrid\n"
-    return write_if_changed("MolGrid.lean", text)
+    return text
+
+
+def generate():
+    return write_if_changed("MolGrid.lean", render())
 
 
 if __name__ == "__main__":
